@@ -58,8 +58,12 @@ def write(pid, tier, seed, results, known_hits, unknown, vac, wall, mod, cpath):
         "wall_s": round(wall, 2),
         "violations": len(unknown),
     }
-    os.makedirs(os.path.join(VERIF, "evidence"), exist_ok=True)
-    path = os.path.join(VERIF, "evidence", f"{pid}.json")
+    from . import engine
+
+    # evidence/ always describes /repo itself; runs against a scratch copy (VERIF_REPO) go to evidence_alt/
+    sub = "evidence" if engine.REPO == "/repo" else "evidence_alt"
+    os.makedirs(os.path.join(VERIF, sub), exist_ok=True)
+    path = os.path.join(VERIF, sub, f"{pid}.json")
     tmp = path + ".tmp"
     with open(tmp, "w") as f:
         json.dump(ev, f, indent=1, default=str)
